@@ -178,6 +178,24 @@ theorem paramNumber_isDisp (c : Ctx) (m : Bool) : isDisp (paramNumber c m).2 = f
 @[simp] theorem dcore_emit_nums (c : Ctx) (a : Bool) (b : List Int) : dcore (emit c (.nums a b)) = dcore c := dcore_emit c _ rfl
 @[simp] theorem dcore_emit_parseMsg (c : Ctx) (a : Bytes) : dcore (emit c (.parseMsg a)) = dcore c := dcore_emit c _ rfl
 
+theorem dispatchTrace_bEvs (r : Regs.St) (b : Builtin) : dispatchTrace (Lemmas.Builtin.bEvs r b) = [] := by
+  cases b <;> simp only [Lemmas.Builtin.bEvs, Lemmas.Builtin.cbEvs] <;> (try split) <;> rfl
+
+/-- the library's own handlers: no handler entry, no -113 -/
+@[simp] theorem dcore_runBuiltin (c : Ctx) (b : Builtin) : dcore (runBuiltin c b).1 = dcore c := by
+  cases hp : Lemmas.Builtin.paramReg b with
+  | none =>
+    rw [Lemmas.Builtin.runBuiltin_pure c b hp]
+    simp only [dcore, dispatchTrace_append, dispatchTrace_bEvs, List.append_nil]
+  | some p =>
+    obtain ⟨reg, strict⟩ := p
+    rw [Lemmas.Builtin.runBuiltin_param c b reg strict hp, Lemmas.Builtin.regFromParam_eq]
+    have h := dcore_paramInt c 32 true true
+    dsimp only
+    split
+    · exact h
+    · exact h
+
 /-- one script operation: nothing dispatch-level happens, provided it is not an explicit push of -113 -/
 theorem dcore_runOp (h : HState) (op : SOp) (hop : ∀ code info, op = SOp.ePush code info → code ≠ -113) :
     dcore (runOp h op).c = dcore h.c := by
